@@ -248,4 +248,69 @@ example : (BTree.graft (.graft .leaf .leaf) .leaf).gamma = 6 := by decide +kerne
 
 end trees
 
+/-! ## Krylov: the step is unbounded exactly when the Krylov space has closed -/
+section krylov
+
+theorem lanczosLoop_spec (small : Nat → Bool) (kd : Nat) (fuel j : Nat) (hf : kd ≤ j + fuel)
+    (hj : j ≤ kd) (hpre : ∀ i, i < j → small i = false) :
+    let r := lanczosLoop small kd fuel j
+    j ≤ r ∧ r ≤ kd ∧ (∀ i, i < r → small i = false) ∧ (r < kd → small r = true) := by
+  induction fuel generalizing j with
+  | zero =>
+    have : j = kd := by omega
+    subst this
+    simp only [lanczosLoop]
+    exact ⟨Nat.le_refl _, Nat.le_refl _, hpre, fun h => absurd h (Nat.lt_irrefl _)⟩
+  | succ fuel ih =>
+    simp only [lanczosLoop]
+    by_cases hc : j < kd ∧ small j = false
+    · have hcond : (decide (j < kd) && !small j) = true := by simp [hc.1, hc.2]
+      rw [if_pos hcond]
+      have hpre' : ∀ i, i < j + 1 → small i = false := by
+        intro i hi
+        rcases Nat.lt_succ_iff_lt_or_eq.mp hi with h | h
+        · exact hpre i h
+        · rw [h]; exact hc.2
+      obtain ⟨h1, h2, h3, h4⟩ := ih (j + 1) (by omega) (by omega) hpre'
+      exact ⟨by omega, h2, h3, h4⟩
+    · have hcond : ¬ ((decide (j < kd) && !small j) = true) := by
+        intro h
+        simp only [Bool.and_eq_true, decide_eq_true_eq, Bool.not_eq_true'] at h
+        exact hc h
+      rw [if_neg hcond]
+      refine ⟨Nat.le_refl _, hj, hpre, ?_⟩
+      intro hlt
+      by_contra hs
+      exact hc ⟨hlt, by simpa using hs⟩
+
+/-- the recursion stops with at most `krylov_dim` vectors exactly when some candidate among the first
+`krylov_dim` had a negligible norm: the Krylov space has closed -/
+theorem lanczosCount_le_iff (small : Nat → Bool) (kd : Nat) :
+    lanczosCount small kd ≤ kd ↔ ∃ j, j < kd ∧ small j = true := by
+  obtain ⟨_, h2, h3, h4⟩ := lanczosLoop_spec small kd kd 0 (by omega) (Nat.zero_le _) (fun i hi => absurd hi (Nat.not_lt_zero _))
+  unfold lanczosCount
+  constructor
+  · intro h
+    exact ⟨_, by omega, h4 (by omega)⟩
+  · rintro ⟨j, hj, hs⟩
+    by_contra hc
+    have : lanczosLoop small kd kd 0 = kd := by omega
+    rw [this] at h3
+    rw [h3 j hj] at hs
+    exact Bool.false_ne_true hs
+
+/-- **the decision of the integrator**: no step bound exactly when the Krylov space closed within the
+first `krylov_dim` candidates, or the vectors built span the whole space -/
+theorem stepUnbounded_iff (small : Nat → Bool) (kd N : Nat) :
+    stepUnbounded small kd N = true ↔ (∃ j, j < kd ∧ small j = true) ∨ lanczosCount small kd = N := by
+  unfold stepUnbounded
+  rw [Bool.or_eq_true, decide_eq_true_eq, beq_iff_eq, lanczosCount_le_iff]
+
+/-- the rule before the repair misses a space that closes with exactly `krylov_dim` vectors
+(`krylov_dim = 2`, the second candidate negligible, a three-dimensional system) -/
+example : stepUnbounded (fun j => j == 1) 2 3 = true ∧ stepUnboundedOld (fun j => j == 1) 2 3 = false := by
+  decide
+
+end krylov
+
 end Qv.C10
